@@ -252,6 +252,9 @@ impl ConstantFoldingRule {
                 }
                 BinaryOperator::Eq => {
                     if let (Expr::Literal(l), Expr::Literal(r)) = (*left, *right) {
+                        if !literals_foldable(l, r) {
+                            return None;
+                        }
                         Some(if literals_equal(l, r) {
                             FoldedPredicate::AlwaysTrue
                         } else {
@@ -263,6 +266,9 @@ impl ConstantFoldingRule {
                 }
                 BinaryOperator::NotEq => {
                     if let (Expr::Literal(l), Expr::Literal(r)) = (*left, *right) {
+                        if !literals_foldable(l, r) {
+                            return None;
+                        }
                         Some(if literals_equal(l, r) {
                             FoldedPredicate::AlwaysFalse
                         } else {
@@ -293,6 +299,19 @@ enum FoldedPredicate<'a> {
     AlwaysTrue,
     AlwaysFalse,
     Simplified(crate::sql::ast::Expr<'a>),
+}
+
+/// A comparison of two literals may be decided at plan time only when neither is NULL
+/// (the result is UNKNOWN, which is neither always-true nor always-false under NOT) and
+/// both are of the same kind (`1 = 1.0` must be compared numerically at run time).
+fn literals_foldable(l: &crate::sql::ast::Literal, r: &crate::sql::ast::Literal) -> bool {
+    use crate::sql::ast::Literal;
+    matches!(
+        (l, r),
+        (Literal::Boolean(_), Literal::Boolean(_))
+            | (Literal::Integer(_), Literal::Integer(_))
+            | (Literal::String(_), Literal::String(_))
+    )
 }
 
 fn literals_equal(l: &crate::sql::ast::Literal, r: &crate::sql::ast::Literal) -> bool {
